@@ -124,6 +124,116 @@ def page_model_check(fm, data, leaves, rgs):
     return n, bad
 
 
+def _plain_labels(ptype, tlen, raw, n):
+    """PLAIN decode of a dictionary page (numbers as little-endian bit patterns, byte strings as bytes) or None"""
+    width = {1: 4, 2: 8, 3: 12, 4: 4, 5: 8}.get(ptype)
+    out, at = [], 0
+    for _ in range(n):
+        if width:
+            out.append(int.from_bytes(raw[at:at + width], "little"))
+            at += width
+        elif ptype == 6:
+            ln = int.from_bytes(raw[at:at + 4], "little")
+            out.append(bytes(raw[at + 4:at + 4 + ln]))
+            at += 4 + ln
+        elif ptype == 7:
+            out.append(bytes(raw[at:at + tlen]))
+            at += tlen
+        else:
+            return None
+    return out if at == len(raw) else None
+
+
+def chunk_model_check(fm, data, leaves, rgs):
+    """tie of Impl/WChunk.v + Impl/RSelf.v (coq/props/C01_chunk.v) to the code, per column chunk of a written file:
+       (a) the writer model's chunk bytes for the column the chunk holds (same page split, labels and codes of a
+           categorical) = the bytes write_column wrote (information: padding / run choices are the writer's freedom);
+       (b) the reader model WITH the selfmade shortcuts (skip_nulls from the statistics, raw 8/16/32-bit codes) applied
+           to the real chunk bytes returns the cells the specification decoder (and the real reader) returns.
+       -> dict(chunks, bytes_equal, raw_equal, differ=[...], reader_ok, reader_bad=[...])"""
+    from harness import pqfile, fmtlib
+    fmd, _ = pqfile.read_footer(data)
+    out = {"chunks": 0, "bytes_equal": 0, "raw_equal": 0, "differ": [], "reader": 0, "reader_bad": [], "cat_chunks": 0}
+    for rg, rgcells in zip(fmd.row_groups, rgs):
+        for col, l, cells in zip(rg.columns, leaves, rgcells):
+            m = col.meta_data
+            if l["type"] == 0 or not cells:
+                continue
+            pages, start, end = pqfile.chunk_pages(data, m)
+            codec = m.codec or 0
+            v2 = any(p["type"] == 3 for p in pages)
+            dps = [p for p in pages if p["type"] in (0, 3)]
+            dicts = [p for p in pages if p["type"] == 2]
+            if len(dicts) > 1 or any(p["type"] not in (0, 2, 3) for p in pages) or (dicts and pages[0]["type"] != 2):
+                continue
+            real_raws, dtbl = [], []
+            for p in pages:
+                pl = p["payload"]
+                if p["type"] == 3:
+                    dl = p["def_len"]
+                    body = pl[dl:]
+                    if codec and p["is_compressed"] is not False:
+                        raw = fmtlib.CODECS[codec][1](body, p["uncompressed_page_size"] - dl)
+                        dtbl.append([bytes([codec]) + body, raw])
+                        body = raw
+                    real_raws.append(body)
+                else:
+                    raw = pl
+                    if codec:
+                        raw = fmtlib.CODECS[codec][1](pl, p["uncompressed_page_size"])
+                        dtbl.append([bytes([codec]) + pl, raw])
+                    real_raws.append(raw)
+            # (b) the reader model with the shortcuts on the real bytes
+            st = m.statistics
+            skip = 1 if (st is not None and getattr(st, "null_count", 1) == 0) else 0
+            inplace = 1 if l["type"] in (1, 2, 3, 4, 5) else 0
+            r = fm.pq.call("fmt_rd_chunk_sm", 1, skip, inplace, l["type"], l["tlen"], 1 if l["maxdef"] else 0, codec, m.num_values,
+                           data[start:end], dtbl)
+            out["reader"] += 1
+            got = [None if c == [] else (bytes(c) if isinstance(c, (bytes, bytearray)) else c) for c in r[1]] if r[0] == b"ok" else None
+            if got != list(cells):
+                out["reader_bad"].append("column %s chunk at %d (skip_nulls=%d): reader model %s, specification %s" % (
+                    l["name"], start, skip, (str(got)[:80] if got is not None else r), str(list(cells))[:80]))
+            # (a) the writer model for the same column
+            labels = None
+            if dicts:
+                labels = _plain_labels(l["type"], l["tlen"], real_raws[0], dicts[0]["num_values"])
+                if labels is None or len(set(labels)) != len(labels):
+                    continue
+                idx = {v: i for i, v in enumerate(labels)}
+                if any(p["encoding"] not in (2, 8) for p in dps):
+                    continue
+            elif any(p["encoding"] != 0 for p in dps):
+                continue
+            at, mp = 0, []
+            for p in dps:
+                pc = cells[at:at + p["num_values"]]
+                at += p["num_values"]
+                mp.append([[] if c is None else (idx[c] if labels is not None else c) for c in pc])
+            k = 0 if labels is None else (1 if len(labels) < 128 else 2 if len(labels) < 32768 else 4)
+            args = [1 if v2 else 0, 1 if l["maxdef"] else 0, l["type"], l["tlen"], codec, k, [labels] if labels is not None else [], mp]
+            r1 = fm.pq.call("fmt_w_chunk", *(args + [[]]))
+            if r1[0] != b"ok":
+                out["differ"].append("column %s: writer model: %r" % (l["name"], r1))
+                continue
+            out["chunks"] += 1
+            out["cat_chunks"] += 1 if labels is not None else 0
+            raws = [bytes(x) for x in r1[2]]
+            tbl = [[bytes([codec]) + x, fmtlib.CODECS[codec][0](x)] for x in set(raws)] if codec else []
+            r2 = fm.pq.call("fmt_w_chunk", *(args + [tbl])) if codec else r1
+            if bytes(r2[1]) == data[start:end]:
+                out["bytes_equal"] += 1
+            elif raws == real_raws:
+                out["raw_equal"] += 1     # same uncompressed pages; the compressor was called with other settings
+            else:
+                first = next((i for i, (a, b) in enumerate(zip(raws, real_raws)) if a != b), None)
+                out["differ"].append("column %s chunk at %d (%s): page %s: model %s..., writer %s..." % (
+                    l["name"], start, "categorical" if labels is not None else "plain", first,
+                    raws[first].hex()[:60] if first is not None else len(raws),
+                    real_raws[first].hex()[:60] if first is not None else len(real_raws)))
+    return out
+
+
 def check_dataset(path, df, spec, o, fm):
     """-> dict(problems=[(stage, text)], files, lenient, pages...) for a written dataset at `path`"""
     from harness import fmtlib, rt
@@ -170,6 +280,19 @@ def check_dataset(path, df, spec, o, fm):
             res.setdefault("model_bad", []).extend(bad[:2])
         except Exception as e:    # noqa
             res.setdefault("model_bad", []).append("harness: %s: %s" % (type(e).__name__, e))
+        try:
+            cm = chunk_model_check(fm, data, r["leaves"], r["rgs"])
+            acc = res.setdefault("chunk_model", {"chunks": 0, "bytes_equal": 0, "raw_equal": 0, "differ": [], "reader": 0,
+                                                 "reader_bad": [], "cat_chunks": 0})
+            for k in ("chunks", "bytes_equal", "raw_equal", "reader", "cat_chunks"):
+                acc[k] += cm[k]
+            acc["differ"].extend(cm["differ"][:2])
+            acc["reader_bad"].extend(cm["reader_bad"][:2])
+        except Exception as e:    # noqa
+            import traceback
+            res.setdefault("chunk_model", {"chunks": 0, "bytes_equal": 0, "raw_equal": 0, "differ": [], "reader": 0,
+                                           "reader_bad": [], "cat_chunks": 0})["differ"].append(
+                "harness: %s" % traceback.format_exc()[-400:])
         tv = _footer_tv(fm, data)
         pm = _pandas_meta(tv)
         if pm is None:
@@ -440,6 +563,7 @@ def run(ctx):
     files = lenient = 0
     decomp = {}
     wm = {"compared": 0, "differ": 0, "first": None}
+    cmw = {"chunks": 0, "bytes_equal": 0, "raw_equal": 0, "cat_chunks": 0, "reader": 0, "differ": 0, "first": None}
     for (spec, o), res in zip(jobs, results):
         case = {"spec": spec, "opts": o}
         if "__crashed__" in res:
@@ -474,6 +598,17 @@ def run(ctx):
         wm["differ"] += len(res.get("model_bad", []))
         if res.get("model_bad") and not wm["first"]:
             wm["first"] = res["model_bad"][0]
+        cm = res.get("chunk_model")
+        if cm:
+            for k in ("chunks", "bytes_equal", "raw_equal", "cat_chunks", "reader"):
+                cmw[k] += cm[k]
+            cmw["differ"] += len(cm["differ"])
+            if cm["differ"] and not cmw["first"]:
+                cmw["first"] = cm["differ"][0]
+            if not known and cm["reader"]:
+                ctx.correspondence("reader model with the selfmade shortcuts (Impl/RSelf.rd_chunk_sm, C01_chunk_roundtrip_partial) on "
+                                   "the chunks write_column wrote = specification decoder", case,
+                                   "equal", "equal" if not cm["reader_bad"] else cm["reader_bad"][0])
         if not known:      # a known finding is accounted for by its own entry, not by the correspondence
             ctx.correspondence("valid_file (spec validator) accepts every file the writer produced", case,
                                "Valid", "Valid" if not invalid else invalid[0][1])
@@ -484,6 +619,14 @@ def run(ctx):
     ctx.extra["writer_model_pages_not_byte_equal"] = wm["differ"]
     if wm["first"]:
         ctx.notes.append("writer model (information only): first page whose bytes differ from Impl/WPagesFmt: %s" % wm["first"])
+    ctx.extra["writer_model_Impl_WChunk_chunks_compared"] = cmw["chunks"]
+    ctx.extra["writer_model_chunks_categorical"] = cmw["cat_chunks"]
+    ctx.extra["writer_model_chunks_byte_equal_incl_page_headers"] = cmw["bytes_equal"]
+    ctx.extra["writer_model_chunks_equal_before_compression_only"] = cmw["raw_equal"]
+    ctx.extra["writer_model_chunks_not_equal"] = cmw["differ"]
+    ctx.extra["reader_model_selfmade_chunks_read"] = cmw["reader"]
+    if cmw["first"]:
+        ctx.notes.append("writer chunk model (information only): first chunk whose bytes differ from Impl/WChunk: %s" % cmw["first"])
 
 
 def replay(rep):
